@@ -17,7 +17,7 @@ pub struct C19;
 const LIMIT: Duration = Duration::from_secs(20);
 
 /// fault name -> shell script body of the `rustfmt` stub (None = no stub: PATH holds an empty directory only)
-pub const FAULTS: [(&str, Option<&str>); 14] = [
+pub const FAULTS: [(&str, Option<&str>); 19] = [
     ("absent", None),
     ("exit1-after-reading", Some("cat >/dev/null\nexit 1\n")),
     ("exit1-without-reading", Some("exit 1\n")),
@@ -39,6 +39,13 @@ pub const FAULTS: [(&str, Option<&str>); 14] = [
     ("banner-exit0-without-reading", Some("printf 'fn main() {}\\n'\nexit 0\n")),
     // the same, but the banner is valid Rust-looking text and the stub lingers a moment before exiting
     ("banner-linger-exit0-without-reading", Some("printf '// formatted\\n'\nsleep 0.2\nexit 0\n")),
+    // "formatters" that read everything, exit 0 and print a DIFFERENT program that still lexes: the library must notice (it compares
+    // token texts) and return the unformatted program - a weakened comparison (trailing `;` ignored, prefix accepted, ..) lets them through
+    ("adds-semicolons-before-closing-braces", Some("sed 's/ }/ ; }/g'\nexit 0\n")),
+    ("drops-semicolons-before-closing-braces", Some("sed 's/ ; }/ }/g'\nexit 0\n")),
+    ("drops-the-last-item", Some("sed 's/pub fn create_pipeline_layout.*$//'\nexit 0\n")),
+    ("appends-an-item", Some("cat\nprintf ' pub fn extra_item ( ) { }\\n'\nexit 0\n")),
+    ("renames-an-identifier", Some("sed 's/create_shader_module/create_shader_modul3/g'\nexit 0\n")),
 ];
 
 /// Canonical token text: trailing commas before a closing delimiter dropped.
